@@ -99,6 +99,25 @@ def run(pid, tier, seed):
     chk.extra["small_scope"] = {"max_size": 4 if quick else 5, "types": len(small)}
     for _ in range(700 if quick else 8000):
         add(gen.ty(3), "random")
+    # unions of many tuples, each homogeneous in itself (what RewriteLargeUnion turns into Tuple[X, ...] when — and only when —
+    # they all agree on X): agreeing and disagreeing families, of 3..8 members
+    atoms = [("cls", str(tbl.of(c))) for c in (int, str, float, bytes, type(None))]
+    for _ in range(60 if quick else 1500):
+        n = chk.rng.choice([3, 5, 6, 6, 7, 8])
+        agree = chk.rng.random() < 0.4
+        x0 = chk.rng.choice(atoms)
+        members = []
+        while len(members) < n:
+            x = x0 if agree else chk.rng.choice(atoms[:3])
+            m = ("tuple",) + (x,) * chk.rng.randrange(1, 5)
+            if m not in members:
+                members.append(m)
+            elif len(members) >= 3 and chk.rng.random() < 0.3:
+                break
+        if chk.rng.random() < 0.2:
+            members.append(chk.rng.choice(atoms))          # a non-tuple member: no Tuple[X, ...]
+        tree = ("union",) + tuple(members)
+        add(tree if chk.rng.random() < 0.7 else ("list", tree), "tuple-family")
     eng_k = (0, 3)
     for _ in range(250 if quick else 3000):
         ds = vgen.record_multiset() if chk.rng.random() < 0.4 else vgen.multiset()
